@@ -120,7 +120,10 @@ func (i Interval) Length() float64 {
 	if l >= 0 {
 		return l
 	}
-	l += 2 * math.Pi
+	// Compute the length of the inverted interval without forming Hi-Lo,
+	// which rounds to exactly -2*Pi for the (valid, non-empty) one-ulp
+	// interval across the +-Pi seam and would make it look empty.
+	l = (i.Hi + math.Pi) - (i.Lo - math.Pi)
 	if l > 0 {
 		return l
 	}
